@@ -3,8 +3,9 @@
 // scripts and emits what every subscriber received as Coq terms for
 // Discovery/Helium.v.
 //
-// Time discipline.  helium's ticker fires at T0+k*I (T0 = return of
-// helium.New, I = push interval).  Script actions run one per slot inside the
+// Time discipline.  helium's ticker fires at T0+k*I (I = push interval; T0 is
+// measured per run with a throw-away subscriber that receives the first tick
+// and is unsubscribed again before the script starts).  Script actions run one per slot inside the
 // window [T0+k*I+w0, T0+k*I+w0+n*slot) which stays clear of the ticks; AWait is
 // the only action that spans a tick (exactly one).  After each slot the
 // harness snapshots, per subscriber, the messages received during the slot.
@@ -282,6 +283,32 @@ func runScript(sc script, mercury *etcdv3.Mercury) (res result) {
 
 	h := helium.New(root, types.GRPCConfig{ServiceDiscoveryPushInterval: interval}, st)
 	t0 := time.Now()
+	tickSeen := false
+	if !sc.StartErr {
+		// Calibration of the ticker phase (the ticker is created by helium's goroutine
+		// some time after New returns): a throw-away subscriber, gone again before the
+		// script starts, receives its first message from the first tick.
+		if sc.Etcd {
+			time.Sleep(800 * time.Millisecond) // the stream's initial list(s) are consumed first
+		}
+		cctx, ccancel := context.WithCancel(root)
+		cid, cch := h.Subscribe(cctx)
+		select {
+		case <-cch:
+			t0 = time.Now().Add(-interval) // ticks at t0 + k*interval, k >= 1
+			tickSeen = true
+		case <-time.After(interval + 1500*time.Millisecond):
+			res.Late = true
+		}
+		ccancel()
+		udone := make(chan struct{})
+		go func() { h.Unsubscribe(cid); close(udone) }()
+		select {
+		case <-udone:
+		case <-time.After(time.Second):
+			res.Late = true
+		}
+	}
 
 	var subs []*subscriber
 	shadow := haxmap.New[uint32, int]()
@@ -304,10 +331,8 @@ func runScript(sc script, mercury *etcdv3.Mercury) (res result) {
 	}
 
 	k, m := 0, 0 // current interval, next slot in it
-	if sc.Etcd {
-		// the stream's start (Get, replayed changes) gets the whole first interval to
-		// be consumed; the tick at its end finds no subscriber
-		k = 1
+	if tickSeen {
+		k = 1 // the calibration consumed tick 1; the script starts in the interval after it
 	}
 	snapshot := func(a action) {
 		got := make([][][]int, len(subs))
@@ -821,10 +846,17 @@ func TestC27(t *testing.T) {
 			}
 		}
 	}
+	// at most 48 scripts at a time: goroutine start-up latencies stay small
+	sem := make(chan struct{}, 48)
 	for i, sc := range scripts {
 		if !sc.Etcd {
 			wg.Add(1)
-			go func(i int) { defer wg.Done(); runWithRetry(i, nil) }(i)
+			go func(i int) {
+				defer wg.Done()
+				sem <- struct{}{}
+				defer func() { <-sem }()
+				runWithRetry(i, nil)
+			}(i)
 		}
 	}
 	// etcd scripts: one embedded cluster (the embedded package allows one per
@@ -842,7 +874,12 @@ func TestC27(t *testing.T) {
 		}
 		m.KV = &prefixKV{KV: m.KV, p: fmt.Sprintf("/script-%d", i)}
 		wg.Add(1)
-		go func(i int) { defer wg.Done(); runWithRetry(i, m) }(i)
+		go func(i int) {
+			defer wg.Done()
+			sem <- struct{}{}
+			defer func() { <-sem }()
+			runWithRetry(i, m)
+		}(i)
 	}
 	wg.Wait()
 
